@@ -60,7 +60,7 @@ def make_model(i, kind, n, solved):
     if m.names and not m.names[0].startswith('_'):
         # an internal variable whose name is '_' + the name of a model variable (its storage key differs: '__<name>')
         m.add_variable('_' + m.names[0], [k % 2 == 1 for k in range(n)], dtype=bool)
-    if solved:
+    if solved and n > type(m).LAGS + type(m).LEADS:
         m.solve(max_iter=5, failures='ignore', errors='ignore')
     return m, labels
 
@@ -129,6 +129,11 @@ def run_sequence_case(case):
     """All eight flag combinations exported one after the other from the SAME object (an export must not change the model)."""
     i, kind, n, solved, order = case['i'], case['span'], case['n'], case['solved'], case['order']
     m, labels = make_model(i, kind, n, solved)
+    for bad in (('Rejected1', [1.0] * (n + 1), float), ('Kint', 1, int)):
+        try:
+            m.add_variable(bad[0], bad[1], dtype=bad[2])  # wrong length / duplicate name: rejected, must leave the model exportable
+        except Exception:
+            pass
     names_before = list(m.names)
     out = []
     flags = FLAGS if order == 'forward' else list(reversed(FLAGS))
